@@ -279,6 +279,9 @@ impl<'t, 'd> GGen<'t, 'd> {
 
     fn simple_consuming(&mut self) -> G {
         // small consuming grammars for skip / until / separators
+        if !self.cfg.value_input {
+            return G::Just(self.seq());
+        }
         match self.t.weighted(&[4, 2, 1]) {
             0 => G::OneOf(self.set()),
             1 => G::Just(self.seq()),
@@ -617,6 +620,9 @@ impl<'t, 'd> GGen<'t, 'd> {
         }
     }
     fn gen_until(&mut self) -> G {
+        if !self.cfg.value_input {
+            return if self.t.chance(1, 3) { G::End } else { G::Just(self.seq()) };
+        }
         match self.t.weighted(&[4, 2, 2]) {
             0 => G::OneOf(self.set()),
             1 => G::Just(self.seq()),
